@@ -5,9 +5,11 @@
 import json, os, re, shutil, subprocess, sys
 ID, i = sys.argv[1], sys.argv[2]
 skip = "--skip-tests" in sys.argv
-wt = "/tmp/seed-%s" % ID
+extra = [a for a in sys.argv[3:] if not a.startswith("--")]
+dest_i = extra[0] if extra else i
+wt = "/tmp/seedB-%s" % ID
 src = os.path.join(wt, "seed_out", i)
-dst = os.path.join(os.path.dirname(os.path.dirname(os.path.abspath(__file__))), "seeded", "%s-%s" % (ID, i))
+dst = os.path.join(os.path.dirname(os.path.dirname(os.path.abspath(__file__))), "seeded", "%s-%s" % (ID, dest_i))
 os.makedirs(dst, exist_ok=True)
 for f in ("patch.diff", "demo.py", "meta.json"):
     shutil.copy(os.path.join(src, f), os.path.join(dst, f))
